@@ -12,7 +12,7 @@ FAMILIES = ["selfrep", "grow", "mutual", "finite", "prefix1", "temps", "erase"]
 def run(chk):
     th = build("plain")
     total = 0
-    budgets = range(1, 9) if chk.thorough else range(1, 7)
+    budgets = range(0, 9) if chk.thorough else range(0, 7)
     L = 5 if chk.thorough else 3
     jobs = [(fam, b) for fam in FAMILIES for b in budgets]
     macros = {fam: macro.family_macros(chk, fam) for fam in FAMILIES}
